@@ -26,4 +26,123 @@ def contrClass (c1 : Bool) (s1 : Space) (c2 : Bool) (s2 : Space) : CT :=
     else .deltaOccQ
   | _, _ => .zero
 
+
+/-- the fresh unregistered index `Index('a', above_fermi=True)` / `Index('i', below_fermi=True)` that
+    `_contraction` creates for two general-index operators; `k` makes it unique within a term -/
+def freshIdx (virt : Bool) (k : Nat) : Idx :=
+  ⟨if virt then .virt else .occ, .none, 0, if virt then 97 else 105, 2000000 + k⟩
+
+/-- symbolic contraction of two operators: `none` = 0, else (Kronecker deltas, fresh summed indices) -/
+def contrS (k : Nat) (x y : Op) : Option (List Obj × List Idx) :=
+  match contrClass x.cr x.idx.space y.cr y.idx.space with
+  | .delta => some ([.delta x.idx y.idx], [])
+  | .deltaVirtQ => some ([.delta x.idx y.idx, .delta y.idx (freshIdx true k)], [freshIdx true k])
+  | .deltaOccQ => some ([.delta x.idx y.idx, .delta y.idx (freshIdx false k)], [freshIdx false k])
+  | _ => none
+
+/-- one fully contracted contribution: sign, deltas, fresh summed indices -/
+structure WTerm where
+  neg   : Bool
+  objs  : List Obj
+  fresh : List Idx
+  deriving Repr, DecidableEq
+
+/-- `_contract_operator_string` without the prefilter: recursion over the first operator; the partner
+    at position `j` of the remainder (position `j+1` of the string) contributes the sign `(-1)^j`.
+    The first argument is fuel (≥ length of the string). -/
+def wickS : Nat → List Op → List WTerm
+  | _, [] => [⟨false, [], []⟩]
+  | 0, _ :: _ => []
+  | f + 1, x :: ys =>
+    (List.range ys.length).flatMap fun j =>
+      match ys[j]? with
+      | none => []
+      | some y =>
+        match contrS ((ys.length + 1) * (ys.length + 1) + j) x y with
+        | none => []
+        | some (ds, fr) =>
+          (wickS f (ys.eraseIdx j)).map fun w => ⟨xor w.neg (j % 2 == 1), ds ++ w.objs, fr ++ w.fresh⟩
+
+def countOps (cr : Bool) (sp : Space) (s : List Op) : Nat :=
+  (s.filter fun o => o.cr == cr && o.idx.space == sp).length
+
+/-- `_has_fully_contracted_contribution` -/
+def hasFull (s : List Op) : Bool :=
+  s.length % 2 == 0 &&
+  countOps true .occ s ≤ countOps false .occ s + countOps false .gen s &&
+  countOps true .virt s ≤ countOps false .virt s + countOps false .gen s
+
+/-- quasi-creator w.r.t. the Fermi vacuum: a†_virt or a_occ (general-index operators are neither) -/
+def Op.isQC (o : Op) : Bool := (o.cr && o.idx.space == .virt) || (!o.cr && o.idx.space == .occ)
+def Op.isQA (o : Op) : Bool := (o.cr && o.idx.space == .occ) || (!o.cr && o.idx.space == .virt)
+
+/-- normal ordering of a string of occ/virt operators: quasi-creators to the left (relative order kept
+    inside both groups); the flag is the parity of the permutation. `none` if a general-index operator
+    occurs (the code cannot handle that case: known finding F3). -/
+def insertNO (x : Op) : List Op → List Op × Bool
+  | [] => ([x], false)
+  | y :: ys =>
+    if x.isQA && y.isQC then
+      let r := insertNO x ys
+      (y :: r.1, !r.2)
+    else (x :: y :: ys, false)
+
+def normalOrder : List Op → Option (List Op × Bool)
+  | [] => some ([], false)
+  | x :: xs =>
+    if x.idx.space == .gen then none
+    else
+      match normalOrder xs with
+      | none => none
+      | some (r, s) =>
+        let q := insertNO x r
+        some (q.1, xor s q.2)
+
+/-- an item of an operator product: a bare operator or a normal-ordered group -/
+inductive OpItem
+  | op (o : Op)
+  | no (l : List Op)
+  deriving Repr
+
+/-- remove the normal-order brackets: (sign, flat operator string) -/
+def flattenItems : List OpItem → Option (List Op × Bool)
+  | [] => some ([], false)
+  | .op o :: rest =>
+    match flattenItems rest with
+    | none => none
+    | some (r, s) => some (o :: r, s)
+  | .no l :: rest =>
+    match normalOrder l, flattenItems rest with
+    | some (l', s), some (r, s') => some (l' ++ r, xor s s')
+    | _, _ => none
+
+/-- a term of an operator expression: coefficient, commuting objects, operator product, summed indices -/
+structure OpTerm where
+  coef  : Rat
+  objs  : List Obj
+  items : List OpItem
+  contr : List Idx
+  deriving Repr
+
+/-- `wicks` on one term (without delta evaluation and rules) -/
+def wickTerm (t : OpTerm) : Option Expr :=
+  match flattenItems t.items with
+  | none => none
+  | some (s, sg) =>
+    if s.length == 1 then some []          -- a single operator cannot be contracted
+    else if s.isEmpty then some [{ coef := t.coef, objs := t.objs, contr := t.contr }]
+    else if !hasFull s then some []
+    else
+      some ((wickS s.length s).map fun w =>
+        { coef := if xor sg w.neg then -t.coef else t.coef,
+          objs := t.objs ++ w.objs,
+          contr := t.contr ++ w.fresh })
+
+def wickExpr : List OpTerm → Option Expr
+  | [] => some []
+  | t :: ts =>
+    match wickTerm t, wickExpr ts with
+    | some a, some b => some (a ++ b)
+    | _, _ => none
+
 end Adc
